@@ -18,7 +18,7 @@ type operand struct{ codec, field string }
 
 func c35(r *core.Run) {
 	r.Explanation = "Decided clauses (finite and completely enumerated): (R1) for every bytecode instruction type, Encode emits its operands with the codec kinds and in the field order that the matching Decode function reads them; " +
-		"every emitX/decodeX helper pair moves the same number of bytes; (R2) Opcode() is injective over instruction types, and DecodeInstruction's arm for an opcode returns the instruction type whose Opcode() is that opcode, for every instruction type; " +
+		"every emitX/decodeX helper pair moves the same number of bytes and calls its inner helpers in the same order, each decoded operand landing in the field it was emitted from; (R2) Opcode() is injective over instruction types, and DecodeInstruction's arm for an opcode returns the instruction type whose Opcode() is that opcode, for every instruction type; " +
 		"(R3) opcode numbers equal the pinned values (bytecode is cached by embedders); (R4) compilation packages contain no order-dependent map iteration and no goroutine start; " +
 		"(R5) the LEB128 readers/writers of the 32- and 64-bit siblings agree modulo the width parameters (a literal that is the width of only one sibling is reported)."
 	r.NotDecided = "LEB128 numerics beyond sibling agreement; byte equality of compiled programs across processes."
@@ -123,6 +123,88 @@ func c35(r *core.Run) {
 			"both move "+we+" byte(s)", "emit"+k+" writes "+we+" byte(s) but decode"+k+" consumes "+wd)
 	}
 	r.Floor("R1.width", 8)
+
+	// R1.helperseq: a composite helper pair (emitUpvalue/decodeUpvalue, the array helpers) must call the inner helpers
+	// in the same order on both sides, and put each decoded operand into the field the emitter took it from
+	helperSeq := func(fd *ast.FuncDecl, prefix string) []operand {
+		var seq []operand
+		assigned := map[types.Object]int{} // variable holding the result of the i-th helper call
+		ast.Inspect(fd.Body, func(nd ast.Node) bool {
+			switch x := nd.(type) {
+			case *ast.AssignStmt:
+				if len(x.Lhs) == 1 && len(x.Rhs) == 1 {
+					if c, ok := x.Rhs[0].(*ast.CallExpr); ok {
+						if id, ok := c.Fun.(*ast.Ident); ok && strings.HasPrefix(id.Name, prefix) && decls[id.Name] != nil {
+							if lid, ok := x.Lhs[0].(*ast.Ident); ok {
+								if o := info.ObjectOf(lid); o != nil {
+									assigned[o] = len(seq) // the call itself is appended when visited below
+								}
+							}
+						}
+					}
+				}
+			case *ast.CallExpr:
+				id, ok := x.Fun.(*ast.Ident)
+				if !ok || !strings.HasPrefix(id.Name, prefix) || decls[id.Name] == nil || id.Name == fd.Name.Name {
+					return true
+				}
+				f := ""
+				if prefix == "emit" && len(x.Args) == 2 {
+					if sel, ok := core.StripConv(x.Args[1], info).(*ast.SelectorExpr); ok {
+						f = sel.Sel.Name
+					}
+				}
+				seq = append(seq, operand{strings.TrimPrefix(id.Name, prefix), f})
+			case *ast.KeyValueExpr:
+				k, ok := x.Key.(*ast.Ident)
+				if !ok || prefix != "decode" {
+					return true
+				}
+				switch v := core.StripConv(x.Value, info).(type) {
+				case *ast.Ident:
+					if o := info.ObjectOf(v); o != nil {
+						if i, ok := assigned[o]; ok && i < len(seq) {
+							seq[i].field = k.Name
+						}
+					}
+				}
+			}
+			return true
+		})
+		return seq
+	}
+	for name := range decls {
+		if !strings.HasPrefix(name, "emit") || name == "emitOpcode" {
+			continue
+		}
+		k := strings.TrimPrefix(name, "emit")
+		dn := "decode" + k
+		if decls[dn] == nil {
+			continue
+		}
+		es, ds := helperSeq(decls[name], "emit"), helperSeq(decls[dn], "decode")
+		if len(es) == 0 || len(ds) == 0 {
+			// a leaf helper on at least one side (emitBool writes the byte itself): the byte widths are compared by R1.width
+			continue
+		}
+		bad := ""
+		if len(es) != len(ds) {
+			bad = fmt.Sprintf("emit%s calls %v but decode%s calls %v", k, es, k, ds)
+		} else {
+			for i := range es {
+				if es[i].codec != ds[i].codec {
+					bad = fmt.Sprintf("step %d: emit%s writes %s but decode%s reads %s", i, k, es[i].codec, k, ds[i].codec)
+					break
+				}
+				if es[i].field != "" && ds[i].field != "" && es[i].field != ds[i].field {
+					bad = fmt.Sprintf("step %d: emit%s writes field %s but decode%s stores the operand into field %s", i, k, es[i].field, k, ds[i].field)
+					break
+				}
+			}
+		}
+		r.Check(bad == "", "R1.helperseq", "bbq/opcode.emit"+k+"/decode"+k, decls[name].Pos(), fmt.Sprintf("inner helpers %v in the same order on both sides", es), bad)
+	}
+	r.Floor("R1.helperseq", 3)
 
 	// instruction types
 	var itypes []string
